@@ -78,7 +78,7 @@ async fn read_frame<S: tokio::io::AsyncRead + Unpin + Send + Sync>(s: &mut S) ->
 }
 
 /// runs one schedule; returns (what the client saw with virtual timestamps in whole seconds, how listen() ended)
-async fn run(d: u64, f: u64, s: u64, ci_delay: u64, echo: Echo) -> (Vec<Seen>, String, Option<String>) {
+async fn run(d: u64, f: u64, s: u64, ci_delay: u64, echo: Echo, login_delay: u64) -> (Vec<Seen>, String, Option<String>) {
     let start = Instant::now();
     let target = Target { identifier: "t".into(), address: SocketAddr::from_str("10.1.2.3:25570").unwrap(), meta: HashMap::new() };
     let (mut client, server_stream) = tokio::io::duplex(1 << 16);
@@ -96,6 +96,8 @@ async fn run(d: u64, f: u64, s: u64, ci_delay: u64, echo: Echo) -> (Vec<Seen>, S
     let mut seen = vec![];
     let res: Result<(), String> = async {
         client.write_packet(hand_in::HandshakePacket { protocol_version: 767, server_address: "play.example".into(), server_port: 25565, next_state: State::Login }).await.map_err(|e| e.to_string())?;
+        // a slow login (the client joins the session server first): the configuration phase starts `login_delay` seconds late
+        if login_delay > 0 { tokio::time::sleep(Duration::from_secs(login_delay)).await; }
         client.write_packet(login_in::LoginStartPacket { user_name: "Claimed".into(), user_id: Uuid::from_u128(1) }).await.map_err(|e| e.to_string())?;
         let (id, mut b) = read_frame(&mut client).await?;
         if id != 0x05 { return Err(format!("expected cookie request, got {id}")); }
@@ -117,7 +119,7 @@ async fn run(d: u64, f: u64, s: u64, ci_delay: u64, echo: Echo) -> (Vec<Seen>, S
         if echo == Echo::Duplicate {
             client.write_packet(conf_in::KeepAlivePacket { id: 4242 }).await.map_err(|e| e.to_string())?;
         }
-        let ci_at = start + Duration::from_secs(ci_delay);
+        let ci_at = start + Duration::from_secs(login_delay + ci_delay);
         let mut ci_sent = false;
         let mut pending_echo: Option<(Instant, u64)> = None;
         loop {
@@ -225,7 +227,7 @@ pub fn sweep(_seed: u64) -> usize {
                     }
                     for &e in &echoes {
                         cases += 1;
-                        let (seen, result, client_err) = rt.block_on(run(d, f, s, ci, e));
+                        let (seen, result, client_err) = rt.block_on(run(d, f, s, ci, e, 0));
                         let (want, ok) = expected(d, f, s, ci, e);
                         let result_ok = if ok { result == "Ok" } else { result.starts_with("Err") };
                         if seen != want || !result_ok {
@@ -239,6 +241,66 @@ pub fn sweep(_seed: u64) -> usize {
             }
         }
     }
+    // slow logins: the configuration phase starts L seconds after the connection was opened (more than one period). Here the
+    // timeline is not prescribed, only what the property says: gaps of at most 16 s, never a second Keep Alive while one is
+    // unechoed, a client that echoes within 10 s is never dropped and gets its Transfer when routing completes, a silent one gets
+    // the timeout Disconnect at most 16 s after the Keep Alive it left unechoed
+    for &login in &[28u64, 45] {
+        for &d in &[0u64, 21] {
+            for &f in &[0u64, 21] {
+                for &s in &[0u64, 21] {
+                    for &ci in &[0u64, 3] {
+                        let marks = [login, login + ci, login + ci + d, login + ci + d + f, login + ci + d + f + s];
+                        if marks.iter().any(|m| m % 16 == 0) {
+                            continue;
+                        }
+                        for &e in &echoes {
+                            cases += 1;
+                            let (seen, result, client_err) = rt.block_on(run(d, f, s, ci, e, login));
+                            if let Some(why) = violates(login, login + ci + d + f + s, e, &seen, &result) {
+                                if found < 5 {
+                                    println!("REPRODUCED keepalive login-takes={login}s discovery={d}s filter={f}s strategy={s}s client-information-after={ci}s echo={e:?}: client saw {seen:?} and listen() ended with {result} (client: {client_err:?}): {why}");
+                                }
+                                found += 1;
+                            }
+                        }
+                    }
+                }
+            }
+        }
+    }
     eprintln!("keepalive: {cases} schedules, {found} mismatches");
     found
+}
+
+/// the property itself on one observed timeline (configuration phase from `cfg_start`, routing complete at `end`)
+fn violates(cfg_start: u64, end: u64, echo: Echo, seen: &[Seen], result: &str) -> Option<String> {
+    let echoes = matches!(echo, Echo::Prompt | Echo::Delayed(_) | Echo::Duplicate);
+    let mut last = cfg_start; // time of the last Keep Alive (or the start of the phase)
+    let mut unechoed: Option<u64> = None;
+    for (i, ev) in seen.iter().enumerate() {
+        match ev {
+            Seen::KeepAlive(t) => {
+                if t - last > 16 { return Some(format!("no Keep Alive for {} s (after t={last})", t - last)); }
+                if unechoed.is_some() { return Some(format!("a second Keep Alive at t={t} while the one of t={last} is unechoed")); }
+                last = *t;
+                if !echoes { unechoed = Some(*t); }
+            }
+            Seen::Disconnect(t) => {
+                if echoes { return Some(format!("a client that echoes every Keep Alive within 10 s was dropped at t={t}")); }
+                let Some(u) = unechoed else { return Some(format!("timeout Disconnect at t={t} although no Keep Alive is unechoed")) };
+                if t - u > 16 { return Some(format!("the Keep Alive of t={u} was left unechoed, the Disconnect came only at t={t}")); }
+                if i != seen.len() - 1 || !result.starts_with("Err") { return Some("the connection went on after the timeout Disconnect".into()); }
+                return None;
+            }
+            Seen::Transfer(t, host, port) => {
+                if *t != end || host != "10.1.2.3" || *port != 25570 { return Some(format!("Transfer({t}, {host}:{port}) instead of the chosen target at t={end}")); }
+                if let Some(u) = unechoed { if t - u > 16 { return Some(format!("the Keep Alive of t={u} was left unechoed for more than 16 s and the client still got its Transfer")); } }
+                if t - last > 16 { return Some(format!("no Keep Alive for {} s before the Transfer", t - last)); }
+                if i != seen.len() - 1 || result != "Ok" { return Some(format!("listen() ended with {result} after the Transfer")); }
+                return None;
+            }
+        }
+    }
+    Some("neither Transfer nor Disconnect arrived".into())
 }
